@@ -5,7 +5,7 @@ IDS = ['a', 'b', 'c', 'd']
 
 
 def rand_const(rng):
-    return rng.choice([0, 1, 2, 'a', 'b', 'k', None, [1, 'a'], [], ['a', 'b'], '', False, -1, -2])
+    return rng.choice([0, 1, 2, 'a', 'b', 'k', None, [1, 'a'], [], ['a', 'b'], '', False, -1, -2, 'x0', 'x0', 'x1'])   # incl. the NAMES of inputs
 
 
 def gen_graph(rng: random.Random, max_nodes=18, malformed=0.03, kinds=None, unique_fns=False):
